@@ -741,7 +741,9 @@ TECHNIQUE = ("Lean 4 theorems (structural induction over byte/unit lists, bit-op
              "discharged by decide +kernel) + differential correspondence check against the real library under AddressSanitizer with the bytes "
              "after every terminator poisoned")
 TRUSTED = ["tools/props/c08.py translate(): regex extraction of toUppercaseU8/toLowercaseU8 (src/unicodedata.cpp, \\xHH literals only) and of the three "
-           "cut-over constants of toUpperCase/toLowerCase/equalsNocase (src/String.cpp) into lean/Gen/UnicodeGen.lean",
+           "cut-over constants of toUpperCase/toLowerCase/equalsNocase (src/String.cpp) into lean/Gen/UnicodeGen.lean; _cexpr(): recursive-descent translation "
+           "of the C size/offset/budget expressions of dataw, fixW, String(wchar_t*), String(Array<wchar_t>), fromCodes, fromCode, chars (+ - * & over literals, "
+           "_len/length()/wcslen; sizeof(wchar_t) read as 4) into Lean Nat terms, raising on anything else",
            "harness/c08.cpp: ASAN_POISON_MEMORY_REGION over [terminator+1, end of the String's buffer) while const methods run"]
 ASSUMPTIONS = ["wchar_t and int are 32-bit two's-complement; a store into a char keeps the low 8 bits; plain char masks (c & 0xe0 …) give the same value on "
                "the sign-extended char as on the unsigned byte (exercised by K on all 256 lead bytes)",
@@ -752,13 +754,19 @@ LEVEL_TEXT = ("Proved in Lean 4 about the executable model the driver runs (all 
               "(Lean `Char`) fromCodes/utf32toUtf8 write exactly Lean core's UTF-8 (String.utf8EncodeChar), chars()/utf8toUtf32 return the code points "
               "(UTF-32->UTF-8->UTF-32 = id), dataw()/utf8toUtf16 give the standard UTF-16 with surrogate pairs, String(wchar_t*)/utf16toUtf8 give back the "
               "UTF-8 (UTF-8->UTF-16->UTF-8 = id), likewise String(Array<wchar_t>) and the in-place fixW(), count() = chars().length = number of iteration steps and the iteration advances by utf8Size; the unit "
-              "budget n yields exactly the first n characters. For EVERY byte string / 32-bit unit string containing a terminator (ill-formed, truncated, "
+              "budget n yields exactly the first n characters; U+0000 (the one scalar value a C string cannot hold) acts as terminator in fromCodes, count, chars, iteration and dataw "
+              "(nul_truncates); wlength() = number of UTF-16 units on valid text and <= length() on all bytes (op wlen). "
+              "For EVERY byte string / 32-bit unit string containing a terminator (ill-formed, truncated, "
               "overlong, NUL inside): no converter, count(), enumerator, case function or equalsNocase reads outside the allocation, outputs fit the "
               "buffers the callers allocate (len+1 ints, wide scratch area, 4n+1, cap()); fixW()'s in-place conversion (model with explicit read and write cursors over one "
               "buffer: a store at/after the read cursor or outside the buffer, or a read outside it, is a fault) never faults for any offset, capacity and "
               "scratch content holding a terminator and equals the out-of-place conversion; table reads are inside the tables, case mapping never yields "
               "more bytes than its input and never contains a NUL (undecodable bytes are copied through), equalsNocase(s,t) <-> toLowerCase(s) = toLowerCase(t) for all byte strings, and on ASCII the mappings are the "
-              "C-locale ones. The case tables and the three cut-over constants are regenerated from /repo on every run and their per-entry facts "
+              "C-locale ones; equalsNocase is reflexive, symmetric and transitive on all byte strings (nocase_equivalence). The buffer sizes, unit budgets and the scratch "
+              "offset that dataw/fixW/String(wchar_t*)/String(Array<wchar_t>)/fromCodes/fromCode/chars hand to the converters are regenerated from src/String.cpp on "
+              "every run, proved equal to the model's (alloc_exprs_from_source) and the in-bounds statements are restated over the regenerated expressions "
+              "(utf_safe_source_sizes). "
+              "The case tables and the three cut-over constants are regenerated from /repo on every run and their per-entry facts "
               "re-decided by the kernel; the loop models are tied to the code by the correspondence check (every scalar value, all short byte strings, "
               "boundary alphabet, random long strings, poisoned bytes after every terminator).")
 LEVEL_NOTE = ("Trusted: Lean kernel, the table/cut-over translator, the harness (incl. manual ASan poisoning). Assumed and exercised by K: 32-bit signed "
